@@ -286,36 +286,58 @@ Fixpoint n_profiles (counts : list nat) : nat :=
       end
   end.
 
+(* The counts used by Field.compress.
+   Repaired code (handoff/C06-fix2-1.diff):
+     count = _derive_count(field data)
+     for every construct c spanning the same axes in the same order:
+         count = [max(m, n) for m, n in zip(count, _derive_count(c.data))]   *)
+Definition zip_max (a b : list nat) : list nat :=
+  map (fun p => Nat.max (fst p) (snd p)) (combine a b).
+
+Definition derive_counts {V} (rows : list (list (option V)))
+  (others : list (list (list (option V)))) : list nat :=
+  fold_left (fun cnt o => zip_max cnt (map derive_count o)) others (map derive_count rows).
+
+(* Before that repair: the counts of the first auxiliary coordinate spanning
+   the field's axes when there is one, else those of the field data. *)
+Definition derive_counts_old {V} (rows : list (list (option V)))
+  (aux : option (list (list (option V)))) : list nat :=
+  map derive_count (match aux with Some a => a | None => rows end).
+
 Section Compress.
 Context {V : Type}.
 Notation cell := (option V).
 
-(* `src` is the array the counts are derived from: the first auxiliary
-   coordinate spanning the same axes if there is one, else the field data. *)
-Definition compress_contiguous (src rows : list (list cell)) : list nat * list cell :=
-  let counts := map derive_count src in (counts, pack counts rows).
+(* every array on the field's axes (the field data and each such construct)
+   is packed with the same counts *)
+Definition compress_contiguous (counts : list nat) (rows : list (list cell))
+  : list nat * list cell :=
+  (counts, pack counts rows).
 
 (* pinned: data=self._Data([n for n in count if n]) *)
 Definition compress_contiguous_old (src rows : list (list cell)) : list nat * list cell :=
   let counts := map derive_count src in
   (filter (fun n => negb (n =? 0)%nat) counts, pack counts rows).
 
-Definition compress_indexed (src rows : list (list cell)) : list Z * list cell :=
-  let counts := map derive_count src in (index_of_counts 0 counts, pack counts rows).
+Definition compress_indexed (counts : list nat) (rows : list (list cell))
+  : list Z * list cell :=
+  (index_of_counts 0 counts, pack counts rows).
 
-(* indexed contiguous: src, rows : features x profiles x elements *)
-Definition ic_counts (src : list (list (list cell))) : list (list nat) :=
-  map (map derive_count) src.
+(* indexed contiguous: rows : features x profiles x elements; cs : the counts
+   of every profile, feature by feature (count[shape1 * i : shape1 * (i + 1)]) *)
+Definition kept_profiles (cs : list (list nat)) : list (list nat) :=
+  map (fun nc => firstn (fst nc) (snd nc)) (combine (map n_profiles cs) cs).
 
-Definition compress_ic (src rows : list (list (list cell)))
+Definition compress_ic (cs : list (list nat)) (rows : list (list (list cell)))
   : list nat * list Z * list cell :=
-  let cs := ic_counts src in
-  let np := map n_profiles cs in
-  (concat (map (fun nc => firstn (fst nc) (snd nc)) (combine np cs)),
-   index_of_counts 0 np,
+  (concat (kept_profiles cs),
+   index_of_counts 0 (map n_profiles cs),
    pack (concat cs) (concat rows)).
 
 (* pinned: zero counts dropped; a feature has as many profiles as non-zero counts *)
+Definition ic_counts (src : list (list (list cell))) : list (list nat) :=
+  map (map derive_count) src.
+
 Definition compress_ic_old (src rows : list (list (list cell)))
   : list nat * list Z * list cell :=
   let cs := ic_counts src in
@@ -406,3 +428,18 @@ Fixpoint multi_indices (pos : list (list nat)) : list (list nat) :=
 Definition orth_take {B} (dflt : B) (shape : list nat) (pos : list (list nat)) (flat : list B)
   : list B :=
   map (fun mi => nth (ravel shape mi) flat dflt) (multi_indices pos).
+
+(* CompressedArray.__getitem__(indices): the whole array is uncompressed and
+   then indexed orthogonally (netcdf_indexer(u, orthogonal_indexing=True)[indices]);
+   [] stands for the whole array *)
+Definition subspace {B} (dflt : B) (shape : list nat) (idx : list aindex) (flat : list B) : list B :=
+  match idx with
+  | [] => flat
+  | _ => orth_take dflt shape (map (fun ni => axis_positions (fst ni) (snd ni)) (combine shape idx)) flat
+  end.
+
+Definition subspace_shape (shape : list nat) (idx : list aindex) : list nat :=
+  match idx with
+  | [] => shape
+  | _ => map (fun ni => length (axis_positions (fst ni) (snd ni))) (combine shape idx)
+  end.
